@@ -9,17 +9,71 @@ import (
 	"verif/simnet"
 )
 
+// C01 scenarios: one GetClosestPeers against a scripted universe, the oracle
+// recomputes the result from what the lookup was told (checkC01).
+//
+// Key space (drawC01Key). The property quantifies over "every key". A key is
+// an arbitrary byte string; the strings a real node looks up most often are
+// peer identities (FindPeer, the table refresh, the lookup for the node's own
+// identity at bootstrap). So besides ordinary keys the generator draws a key
+// that is the identity of
+//   - a member of the universe (which may be a seed, may be named in replies,
+//     may be rejected by the query filter, may fail its dial or its request),
+//   - a peer that exists only in the lies of lying peers (never reachable),
+//   - the local node itself.
+// Nothing in the property makes such a key special: every clause is judged
+// exactly as for an ordinary key ("at most K", "never the local node", "none
+// of them had failed a dial or request when the search phase ended", "exactly
+// the K nearest of the learned non-failed set"). The one documented
+// particularity of the library (a peer whose identity IS the key is learned
+// even when the query filter rejects it) only widens the learned set and is
+// taken from the published Heard lists, as for every other peer.
+//
+// Rules added with the key space:
+//   result-failed-on-wire  "none of them had failed a dial or request when the
+//       lookup's search phase ended", judged against the simulator's own
+//       delivery log instead of the lookup's events (independent of the events
+//       being right): no returned peer had a failed dial or a failed request
+//       for this key delivered to the lookup strictly before the step in which
+//       the search phase ended. Judged only where "before the search phase
+//       ended" is unambiguous: events consumed at once (no lazy consumption),
+//       failure delivered before any cancellation.
+
+// drawC01Key draws the kind of key; value 0 keeps the ordinary key.
+func drawC01Key(s *sim.Sim, c *lookupCfg) {
+	kind := []string{"plain", "plain", "plain", "peer", "peer", "peer", "ghost", "self"}[s.Draw("key-kind", 8)]
+	if kind == "ghost" && !c.Lies {
+		kind = "peer" // nobody ever names a ghost in a world without lies
+	}
+	switch kind {
+	case "peer":
+		i := s.Draw("key-peer", c.N)
+		c.KeyFor = func(u *simnet.Universe) string { return string(u.Peers[i].ID) }
+	case "ghost":
+		// (ghost identities: see lookupCfg.KeyFor; the first K are the ones a
+		// "non-existent peers first" lie names)
+		i := s.Draw("key-ghost", c.K)
+		c.KeyFor = func(*simnet.Universe) string { return string(simnet.MakeID(0xdead, i)) }
+	case "self":
+		c.KeyFor = func(u *simnet.Universe) string { return string(u.Self.ID) }
+	}
+	s.Summary["key"] = kind
+	s.Count("probe_key_" + kind)
+}
+
 func init() {
 	common := func(sc *sim.Scenario) *sim.Scenario {
 		sc.Real = []string{"IpfsDHT.GetClosestPeers", "query.go state machine", "qpeerset", "lookup events", "kbucket routing table", "pstoremem peerstore", "ProtocolMessenger"}
 		sc.Stub = []string{"host.Host/network (simhost)", "pb.MessageSender (level A, simnet.Sender)", "remote peers (scripted)"}
-		sc.Faults = []string{"fault_dial_fail", "fault_rpc_error", "fault_lying_reply", "fault_cancel", "time_advance", "cancel_observed", "fault_bad_addr_presentation", "probe_event_consumed_with_calls_parked", "probe_named_bad_then_good"}
+		sc.Faults = []string{"fault_dial_fail", "fault_rpc_error", "fault_lying_reply", "fault_cancel", "time_advance", "cancel_observed", "fault_bad_addr_presentation", "probe_event_consumed_with_calls_parked", "probe_named_bad_then_good",
+			"probe_key_peer", "probe_key_ghost", "probe_key_self", "probe_target_learned", "probe_target_failed", "probe_target_failed_k_others_live", "probe_target_filter_rejected_learned", "probe_target_returned"}
 		return sc
 	}
 	sim.Register(common(&sim.Scenario{Prop: "C01", Name: "lookup-faulty", Weight: 3, Run: func(s *sim.Sim) {
 		c := genLookupCfg(s, "random")
 		c.FaultLevel = s.Draw("fault-level", 3)
 		c.Lies = s.Chance("lies", 1, 2)
+		drawC01Key(s, &c)
 		switch s.Draw("filter-kind", 4) {
 		case 1:
 			c.AddrFilter = true // address-sensitive query filter
@@ -44,6 +98,7 @@ func init() {
 	}}))
 	sim.Register(common(&sim.Scenario{Prop: "C01", Name: "lookup-clean", Weight: 1, Run: func(s *sim.Sim) {
 		c := genLookupCfg(s, "random")
+		drawC01Key(s, &c)
 		s.MaxSteps = 600
 		o := runLookup(s, c)
 		if o != nil && !s.Failed() {
@@ -274,6 +329,45 @@ func checkC01(s *sim.Sim, o *lookupObs) {
 		}
 		if !tbl[p] && !named {
 			s.Violate("result-unlearned", "returned peer %s was neither in the table nor named in a processed reply", u.Name(p))
+		}
+	}
+
+	// rule result-failed-on-wire (see the header): the simulator's own log of
+	// failures it delivered, not the lookup's account of them
+	if !o.cfg.LazyEvents {
+		inRes := idSet(res)
+		for _, d := range o.deliveries {
+			if d.Kind != "dial-fail" && d.Kind != "rpc-err" {
+				continue
+			}
+			if d.RPC != nil && string(d.RPC.Req.GetKey()) != o.cfg.Key {
+				continue
+			}
+			if d.Step >= v.termStep || (o.cancelStep != 0 && d.Step >= o.cancelStep) {
+				continue
+			}
+			if inRes[d.Peer] {
+				s.Violate("result-failed-on-wire", "returned peer %s had failed (%s delivered at step %d, search phase ended at step %d); returned [%s]", u.Name(d.Peer), d.Kind, d.Step, v.termStep, names(u, res))
+			}
+		}
+	}
+
+	// probes of the key space: the key is a peer's identity and the lookup met it
+	if tgt := peer.ID(o.cfg.Key); u.ByID(tgt) != nil && tgt != self {
+		if v.learned[tgt] {
+			s.Count("probe_target_learned")
+			if o.cfg.Deny[tgt] {
+				s.Count("probe_target_filter_rejected_learned")
+			}
+		}
+		if _, f := v.unreach[tgt]; f {
+			s.Count("probe_target_failed")
+			if len(want) == K {
+				s.Count("probe_target_failed_k_others_live")
+			}
+		}
+		if idSet(res)[tgt] {
+			s.Count("probe_target_returned")
 		}
 	}
 
